@@ -506,6 +506,39 @@ func isSmallConst(v ssa.Value) bool {
 
 var backtick = regexp.MustCompile("`([^`]+)`")
 
+// documentedSentences: the exact empty-state strings docs/spec.md lists.
+func (c *Ctx) documentedSentences() ([]string, error) {
+	data, err := os.ReadFile(filepath.Join(c.Repo, "docs", "spec.md"))
+	if err != nil {
+		return nil, err
+	}
+	lines := strings.Split(string(data), "\n")
+	var want []string
+	in := false
+	for _, ln := range lines {
+		t := strings.TrimSpace(ln)
+		if strings.Contains(t, "Exact empty-state strings") {
+			in = true
+			continue
+		}
+		if in {
+			if strings.HasPrefix(ln, "  - ") || strings.HasPrefix(ln, "    - ") {
+				if m := backtick.FindStringSubmatch(t); m != nil {
+					want = append(want, m[1])
+				}
+				continue
+			}
+			in = false
+		}
+		if strings.Contains(t, "Exact value:") {
+			if m := backtick.FindStringSubmatch(t); m != nil {
+				want = append(want, m[1])
+			}
+		}
+	}
+	return want, nil
+}
+
 func ruleOU6(c *Ctx) {
 	data, err := os.ReadFile(filepath.Join(c.Repo, "docs", "spec.md"))
 	if err != nil {
